@@ -14,16 +14,13 @@ PROP = dict(
             "the `Distance` error variant is never produced by this function; union of the used sources' Bloom filters in the advertisement (C34)",
     assumptions=[
         "server id indices are < 4096, sorted and distinct (what ServerId::new produces)",
-        "c33_accept excludes the two defect regions below; they are the subject of the two _kf_ harnesses",
     ],
     stub_notes=["tracing without subscriber (debug! only)"],
     harnesses=[
         H(NH, "c33", "c33_accept", "Ok => stratum below local, reachable, not this daemon, (stratum>1 => reference id not a local address), server id not in the Bloom filter; "
-          "outside the two known-defect regions", timeout=600),
-        H(NH, "c33", "c33_accept_kf_refid", "KNOWN DEFECT region: source at stratum > 1 whose REFERENCE id is a local address (it synchronises to us) is accepted: "
-          "the code compares source_id, never reference_id (source.rs:232-236)", timeout=600),
-        H(NH, "c33", "c33_accept_kf_self_stratum1", "KNOWN DEFECT region: source whose own id is a local address and that reports stratum 1 is accepted: "
-          "the only identifier comparison is skipped when stratum == 1", timeout=600),
+          "and a source that is this daemon / names it as reference / has it in its Bloom filter is rejected as Loop (when its stratum is below the local one)", timeout=600),
+        H(NH, "c33", "c33_accept_refid", "focused: source at stratum > 1 whose REFERENCE id is a local address (it synchronises to us) is never used (accepted before fix f6bea43)", timeout=600),
+        H(NH, "c33", "c33_accept_self_stratum1", "focused: source whose own id is a local address and that reports stratum 1 is never used (accepted before fix f6bea43)", timeout=600),
         H(NH, "c33", "c33_adv", "advertised stratum = primary source stratum + 1 (saturating) and reference id = its source id, local stratum / none when no source; "
           "own server id in the advertised filter", timeout=600),
     ],
